@@ -1022,7 +1022,7 @@ _DICT_METHODS = {"get", "setdefault", "pop", "popitem", "update", "items", "keys
 _SET_METHODS = {"add", "remove", "discard", "pop", "clear", "copy", "update", "union", "intersection", "difference", "symmetric_difference", "issubset", "issuperset", "isdisjoint", "difference_update", "intersection_update", "__contains__", "__len__", "__iter__"}
 
 _EXT_CONST = {"typing.TYPE_CHECKING": False, "pickle.DEFAULT_PROTOCOL": 4, "pickle.HIGHEST_PROTOCOL": 5, "pickle.PROTO": b"\x80", "pickle.STOP": b".", "pickle.MARK": b"(", "pickle.TUPLE": b"t", "pickle.POP": b"0", "pickle.POP_MARK": b"1",
-              "pickle.TUPLE1": b"\x85", "pickle.TUPLE2": b"\x86", "pickle.TUPLE3": b"\x87", "pickle.EMPTY_TUPLE": b")",
+              "pickle.TUPLE1": b"\x85", "pickle.TUPLE2": b"\x86", "pickle.TUPLE3": b"\x87", "pickle.EMPTY_TUPLE": b")", "pickle.FROZENSET": b"\x91",
               "math.inf": float("inf"), "math.pi": 3.141592653589793, "sys.maxsize": 2**63 - 1}
 _EXT_TYPES = {"collections.deque": "deque", "types.MappingProxyType": "mappingproxy", "builtins.object": "object"}
 _EXT_SUBMODULES = {"os.path", "collections.abc", "pyvis.network", "datetime.datetime"}
